@@ -247,6 +247,43 @@ fn main() {
                 }
                 format!("registration {}", out.join(" "))
             }
+            "slot_binding" => {
+                // forged submissions that every correct verifier rejects: the signature does not verify, for this message, under
+                // the key registered at the slot it names
+                use mithril_common::entities::{ProtocolMessage, ProtocolMessagePartKey, SingleSignature};
+                use mithril_common::protocol::SignerBuilder;
+                use mithril_common::test::builder::MithrilFixtureBuilder;
+                let fixture = MithrilFixtureBuilder::default().with_signers(4).build();
+                let mk = || SignerBuilder::new(&fixture.signers_with_stake(), &fixture.protocol_parameters()).unwrap().build_multi_signer();
+                let mut m1 = ProtocolMessage::new();
+                m1.set_message_part(ProtocolMessagePartKey::SnapshotDigest, "digest-1".to_string());
+                let mut m2 = ProtocolMessage::new();
+                m2.set_message_part(ProtocolMessagePartKey::SnapshotDigest, "digest-2".to_string());
+                let signers = fixture.signers_fixture();
+                let sig_a = match signers.iter().find_map(|s| s.sign(&m1)) { Some(s) => s, None => { println!("scenario-not-built"); continue; } };
+                let slot_a = sig_a.to_protocol_signature().signer_index;
+                let with_slot = |slot: u64, label: &str| -> SingleSignature {
+                    let mut ps = sig_a.to_protocol_signature();
+                    ps.signer_index = slot;
+                    SingleSignature { party_id: label.to_string(), signature: ps.into(), ..sig_a.clone() }
+                };
+                let mut out = Vec::new();
+                let mut expect_reject = |name: &str, ok: bool| out.push(format!("{}={}", name, if ok { "VIOLATED accepted" } else { "rejected" }));
+                let ms = mk();
+                let honest = ms.verify_single_signature(&m1, &sig_a).is_ok();
+                expect_reject("unregistered_slot", mk().verify_single_signature(&m1, &with_slot(signers.len() as u64 + 7, &sig_a.party_id)).is_ok());
+                expect_reject("slot_max", mk().verify_single_signature(&m1, &with_slot(u64::MAX, "pool1unregistered")).is_ok());
+                for other in 0..signers.len() as u64 {
+                    if other != slot_a {
+                        expect_reject(&format!("moved_to_slot_{}", other), mk().verify_single_signature(&m1, &with_slot(other, &signers[other as usize].party_id())).is_ok());
+                    }
+                }
+                expect_reject("other_message_fresh_instance", mk().verify_single_signature(&m2, &sig_a).is_ok());
+                // same instance, after it accepted the signature for its own message
+                expect_reject("other_message_after_accepting_the_real_one", ms.verify_single_signature(&m2, &sig_a).is_ok());
+                expect_reject("moved_slot_after_accepting_the_real_one", ms.verify_single_signature(&m1, &with_slot((slot_a + 1) % signers.len() as u64, &sig_a.party_id)).is_ok());
+                format!("slot_binding honest={} {}", if honest { "accepted" } else { "VIOLATED rejected" }, out.join(" "))
+            }
             "attribution" => {
                 // A's own signature under A's label, under B's label, and under an unregistered label
                 use mithril_common::entities::{ProtocolMessage, ProtocolMessagePartKey};
